@@ -188,8 +188,19 @@ func rsCases(thorough bool) {
 		maxBig = 4096
 		nBig = 3
 	}
+	var rules [][2]int
 	for k := 1; k <= 8; k++ {
 		for m := 0; m <= 4; m++ {
+			rules = append(rules, [2]int{k, m})
+		}
+	}
+	if thorough {
+		// beyond the box proved in Coq (tie only): rules the protocol also allows
+		rules = append(rules, [2]int{10, 3}, [2]int{12, 4}, [2]int{16, 4}, [2]int{20, 6})
+	}
+	for _, km := range rules {
+		{
+			k, m := km[0], km[1]
 			n := k + m
 			rule := iec.Rule{DataPartNum: uint8(k), ParityPartNum: uint8(m)}
 			lens := []int{0, 1, k + 1, 2*k + 1, 1 + rnd.Intn(64)}
